@@ -4,7 +4,7 @@ import PonyVerif.Model.KeyDb
   Line-protocol entry for the table + session model (C14).
   request : {"op":"run","schema":{..as C11..},
              "ops":[{"k":"sess","op":{..a C11 op: create / set / delete / read..}} | {"k":"fetch","cls":0,"pk":[1],"ids":[]}
-                    | {"k":"flush","ids":[3,4]} | {"k":"flushOne","o":0,"ids":[]} | {"k":"commit","ids":[]} | {"k":"rollback"} | {"k":"ext","pk":[7],"vals":[1,null]} | {"k":"extUpdate","pk":[7],"a":0,"v":3} | {"k":"extDelete","pk":[7]}]}
+                    | {"k":"flush","ids":[3,4]} | {"k":"flushOne","o":0,"ids":[],"delAll":true} | {"k":"commit","ids":[]} | {"k":"rollback"} | {"k":"ext","pk":[7],"vals":[1,null]} | {"k":"extUpdate","pk":[7],"a":0,"v":3} | {"k":"extDelete","pk":[7]}]}
   reply   : {"steps":[{"err":null|"TransactionIntegrityError"..,"committed":[[pk,[vals]]..],"txn":[..],"inTxn":bool,"keysOk":bool,
                        "objs":[..],"pk":[..],"ixs":[..],"queue":[..]}]}
 -/
@@ -22,7 +22,7 @@ def wopOfJson (j : Json) : Except String WOp := do
   | "sess" => pure (.sess (← C11.opOfJson (← j.getObjVal? "op")))
   | "fetch" => pure (.fetch (← argNat j "cls") (← C11.intsOfJson (← j.getObjVal? "pk")) (← idsOf j))
   | "flush" => pure (.flush (← idsOf j))
-  | "flushOne" => pure (.flushOne (← argNat j "o") (← idsOf j))
+  | "flushOne" => pure (.flushOne (← argNat j "o") (← idsOf j) (C11.boolD j "delAll"))
   | "commit" => pure (.commit (← idsOf j))
   | "rollback" => pure .rollback
   | "ext" =>
